@@ -58,9 +58,11 @@ package ggql
 //@   ensures[locks-balanced] held == old(held)
 
 //@ func (*Root).resolveReflect
-//@   props C12
+//@   props C12 C03
 //@   check lock {C12}
+//@   check panic {C03}
 //@   requires root != nil && field != nil
+//@   requires[object-present] obj != nil
 //@   requires t != nil ==> ptrval(t) != 0
 //@   requires[unlocked] onlyRegistryLock(root)
 //@   assumes errsFresh(ea)
